@@ -166,6 +166,8 @@ def main():
     finally:
         if sd:
             open(os.path.join(sd, f'END_{run}'), 'w').close()
+        if job.get('end_token') and job.get('trace_dir'):
+            open(os.path.join(job['trace_dir'], 'tok.' + job['end_token']), 'w').close()
     try:
         out['stdio_tail'] = open(cap).read()[-2000:]
     except OSError:
